@@ -386,7 +386,7 @@ Proof.
   split; [vm_compute; reflexivity|]. split; [reflexivity|]. split; [vm_compute; reflexivity|].
   split; [reflexivity|]. split.
   - eexists. split; [reflexivity | vm_compute; reflexivity].
-  - split; [|split; [discriminate | intros dn []]].
+  - split; [|split; [vm_compute; reflexivity | split; [discriminate | intros dn []]]].
     eexists _, _, _, _, _. split; [vm_compute; reflexivity|]. split; [vm_compute; reflexivity|].
     split; [reflexivity|]. split; [discriminate|]. split; reflexivity.
 Qed.
@@ -398,7 +398,7 @@ Qed.
 Theorem C09_unrepaired_dataset_map_refuted :
   exists src dst out v view st,
     g_crs dst = Some c3857 /\
-    reproject_ds (Fixes false true true) ex_tol ex_itol src dst None = Ok out /\
+    reproject_ds (Fixes false true true true) ex_tol ex_itol src dst None = Ok out /\
     lookup "crs" (x_attrs out) = Some (VCrs c4326) /\
     lookup "a" (x_vars out) = Some v /\ lookup "crs" (v_attrs v) = Some (VCrs c4326) /\
     ds_getitem out "a" = Some view /\
@@ -417,7 +417,7 @@ Theorem C09_unrepaired_rotated_single_row_refuted :
   exists (g : gbox) x0 st g',
     is_affine_st ex_tol (g_aff g) = false /\ g_ny g = 1 /\
     wrap_xr ex_tol (ABox g) None None None (Some "spatial_ref") [] = Ok x0 /\
-    locate_geo_info (Fixes true false true) ex_tol x0 = Ok st /\ gs_box st = Some (ABox g') /\
+    locate_geo_info (Fixes true false true true) ex_tol x0 = Ok st /\ gs_box st = Some (ABox g') /\
     aff_eqb (g_aff g') (Aff 3 (-20) 108 4 15 194) = true /\ aff_eqb (g_aff g') (g_aff g) = false.
 Proof.
   exists (GBox 1 5 (Aff 3 (-4) 100 4 3 200) (Some c3857)). eexists _, _, _.
@@ -434,7 +434,7 @@ Theorem C09_unrepaired_gcp_single_row_refuted :
     run_history x0 [OIsel "y" (PySlice (Some 3) (Some 4) None); OIsel "x" (PySlice (Some 2) (Some 5) None)] = Ok x /\
     axis_idx "y" (iota 8) [OIsel "y" (PySlice (Some 3) (Some 4) None); OIsel "x" (PySlice (Some 2) (Some 5) None)] = Ok [3] /\
     axis_idx "x" (iota 10) [OIsel "y" (PySlice (Some 3) (Some 4) None); OIsel "x" (PySlice (Some 2) (Some 5) None)] = Ok [2; 3; 4] /\
-    locate_geo_info (Fixes true true false) ex_tol x = Ok st /\ gs_transform st = None /\
+    locate_geo_info (Fixes true true false true) ex_tol x = Ok st /\ gs_transform st = None /\
     (exists pts c, gs_box st = Some (AGcp 1 3 aff_id pts c)).
 Proof.
   exists (AGcp 8 10 aff_id [(0, 0, 100, 200); (10, 0, 120, 200); (0, 8, 100, 160); (10, 8, 120, 160); (5, 4, 110, 180)]%Q (Some c3857)).
@@ -444,3 +444,25 @@ Proof.
   split; [vm_compute; reflexivity|]. split; [reflexivity|]. eexists _, _. reflexivity.
 Qed.
 Print Assumptions C09_unrepaired_gcp_single_row_refuted.
+
+(** Before repair 740a608 a variable that does not span the Dataset's spatial dimensions -- here a
+    (time, band) table without coordinates, which inherits the scalar CRS coordinate -- was taken
+    for a raster (relaxed spatial dims = its last two dimensions, transform = the GeoTransform),
+    warped, and came back with dimensions (y, x).  The repaired code passes it through. *)
+Definition ex_ds_table : xobj :=
+  XObj true (x_dims ex_da ++ [("time", 2); ("band", 3)]) None [] (x_coords ex_da)
+       [("a", XVar ["latitude"; "longitude"] (x_attrs ex_da) (x_gm ex_da));
+        ("w", XVar ["time"; "band"] [] None)].
+
+Theorem C09_unrepaired_nonspatial_variable_warped_refuted :
+  exists out v out' v',
+    reproject_ds (Fixes true true true false) ex_tol ex_itol ex_ds_table ex_dst None = Ok out /\
+    lookup "w" (x_vars out) = Some v /\ v_dims v = ["y"; "x"] /\
+    reproject_ds repaired ex_tol ex_itol ex_ds_table ex_dst None = Ok out' /\
+    lookup "w" (x_vars out') = Some v' /\ v_dims v' = ["time"; "band"].
+Proof.
+  eexists _, _, _, _.
+  split; [vm_compute; reflexivity|]. split; [reflexivity|]. split; [reflexivity|].
+  split; [vm_compute; reflexivity|]. split; reflexivity.
+Qed.
+Print Assumptions C09_unrepaired_nonspatial_variable_warped_refuted.
